@@ -1620,7 +1620,8 @@ class Solid:
             if self.group_id is not None:
                 buffer.write(f'{ind}\t\t"groupid" "{self.group_id}"\n')
 
-            for group in self.visgroup_ids:
+            # Sets have no stable order, sort so exporting is reproducible.
+            for group in sorted(self.visgroup_ids):
                 buffer.write(f'{ind}\t\t"visgroupid" "{group}"\n')
 
         buffer.write(f'{ind}\t\t"visgroupshown" "{"1" if self.vis_shown else "0"}"\n')
@@ -2828,10 +2829,11 @@ class Entity(MutableMapping[str, str]):
         # The editor{} block, indicating if shown/hidden.
         # Worldspawn can't be hidden, so skip these.
         if not _is_worldspawn:
-            for group_id in self.groups:
+            # Sets have no stable order, sort so exporting is reproducible.
+            for group_id in sorted(self.groups):
                 buffer.write(f'{ind}\t\t"groupid" "{group_id}"\n')
 
-            for vis_id in self.visgroup_ids:
+            for vis_id in sorted(self.visgroup_ids):
                 buffer.write(f'{ind}\t\t"visgroupid" "{vis_id}"\n')
 
             buffer.write(f'{ind}\t\t"visgroupshown" "{srctools.bool_as_int(self.vis_shown)}"\n')
